@@ -37,6 +37,26 @@ RULE = ("norm: small-scope product of {resource+datum, resource+datum_page, curr
 MODE = os.environ.get("VERIF_C35_MODE", "Deep")
 PARALLEL = False     # per-case cost is a few ms; importing tiled once (~15 s) dominates
 
+
+
+def _smaller_shards():
+    """The cases of this property are large literals (whole document streams) and coqc spends its time
+    reading them, not evaluating: use shards of 64 cases instead of 300 so that all cores are used.
+    Only the shard size of this property's own cases files is changed."""
+    from harness import core
+    if getattr(core.eval_cases_in_coq, "_c35_tuned", False):
+        return
+    orig = core.eval_cases_in_coq
+
+    def tuned(tag, imports, terms, shard=300, timeout=600):
+        return orig(tag, imports, terms, shard=64 if tag.startswith(ID) else shard, timeout=timeout)
+
+    tuned._c35_tuned = True
+    core.eval_cases_in_coq = tuned
+
+
+_smaller_shards()
+
 # ----------------------------------------------------------------------------- generation
 
 HDF5_SPEC, TIFF_SPEC, UNK_SPEC = "AD_HDF5_SWMR_STREAM", "AD_TIFF", "MY_OWN_SPEC"
@@ -300,13 +320,34 @@ def cases(rng, tier):
         out.append({"kind": "norm", "tag": "legacy/two_keys", "docs": legacy_run("res_datum", spec, hp, fr, ("e", "l"), False, False, True),
                     "fail_emit": []})
     for form, spec, hp, n, reserved, page in itertools.product(["sres_cur", "sres_legacy"], specs, hps, (1, 2), (False, True), (False, True)):
+        if quick and (n == 1 or (reserved != page)):
+            continue
         out.append({"kind": "norm", "tag": "current/%s" % form, "docs": current_run(form, spec, hp, n, reserved, page), "fail_emit": []})
+    # --- norm: the literal tables of the source, entry by entry (the model holds its own copy of them)
+    from bluesky.callbacks import tiled_writer as tw
+    for spec in sorted(tw.MIMETYPE_LOOKUP.keys()) + ["NOT_IN_THE_TABLE"]:
+        out.append({"kind": "norm", "tag": "table/spec", "docs": legacy_run("res_datum", spec, "path", "none", ("e",), False, False),
+                    "fail_emit": []})
+    for dt in sorted(tw.JSON_TO_NUMPY_DTYPE.keys()):
+        docs = legacy_run("res_datum", TIFF_SPEC, "none", "none", ("e",), False, False)
+        docs[1][1]["data_keys"]["x"]["dtype"] = dt
+        docs[1][1]["configuration"]["det"]["data_keys"]["c"]["dtype"] = dt
+        out.append({"kind": "norm", "tag": "table/dtype", "docs": docs, "fail_emit": []})
+    for rk in list(tw.RESERVED_DATA_KEYS) + ["uid", "descriptor", "data"]:
+        docs = legacy_run("res_datum", TIFF_SPEC, "none", "none", ("e", "e"), False, False)
+        docs[1][1]["data_keys"][rk] = {"dtype": "number", "shape": [], "source": "PV:r"}
+        docs[1][1]["object_keys"]["det"].append(rk)
+        for n, d in docs:
+            if n == "event":
+                d["data"][rk] = 0.5
+                d["timestamps"][rk] = 11.5
+        out.append({"kind": "norm", "tag": "table/reserved", "docs": docs, "fail_emit": []})
     # --- norm: random streams
-    nrand = 120 if quick else 2500
+    nrand = 100 if quick else 2500
     for _ in range(nrand):
         out.append({"kind": "norm", "tag": "random", "docs": random_run(rng), "fail_emit": []})
     # --- norm: malformed stream and failing subscriber
-    nmal = 120 if quick else 1500
+    nmal = 100 if quick else 1500
     for _ in range(nmal):
         base = random_run(rng) if rng.random() < 0.6 else legacy_run(rng.choice(forms), rng.choice(specs), rng.choice(hps),
                                                                      rng.choice(frs), rng.choice(orders), rng.random() < 0.3, rng.random() < 0.3)
@@ -924,3 +965,19 @@ def describe(case):
     if case["kind"] == "backup":
         return "backup:n=%d,nb=%d,maxlen=%s" % (min(case["n"], 6), case["nb"], "big" if case["maxlen"] > 100 else case["maxlen"])
     return "chain:nb=%d" % case["nb"]
+
+
+def model_search(rng, tier):
+    """When a proof or the correspondence is broken and the oracle found nothing: look for a document
+    stream on which the MODEL violates the boolean restatement (inputs read back unchanged; b_holds_b
+    outside the finding class), evaluated in Coq."""
+    from harness import core
+    cs = [c for c in cases(rng, "quick") if c["kind"] == "norm" and not c["fail_emit"]][:400]
+    terms = []
+    for c in cs:
+        terms.append("(let docs := %s in let r := run Deep [] docs in after_sim (r_after r) (map snd docs) && "
+                     "(negb (match r_errs r with nil => true | _ => false end) || finding_C35_b docs || b_holds_b docs))" % cdocs(c["docs"]))
+    ok, bad, log = core.eval_cases_in_coq(ID + "search", COQ_IMPORTS, terms)
+    if ok and bad:
+        return {"case": cs[bad[0]], "why": "the model itself alters its inputs or loses a value / a datum on this stream"}
+    return None
